@@ -49,3 +49,116 @@ proof fn lemma_kb_keys_distinct()
     assert("nonce"@.len() == 5 && "aud"@.len() == 3 && "iat"@.len() == 3 && "sd_hash"@.len() == 7);
     assert("aud"@[0] == 'a' && "iat"@[0] == 'i');
 }
+
+// ---- the holder's selection as the property states it (C06, C15), over the abstract JSON view ----
+// Result: the digests of the selected selectively-disclosable claims (None = the selection is refused).
+// `false` / `null` select nothing beneath; `true` (and any scalar / `{}` on an object member) selects the claim without
+// hidden descendants; arrays are positional up to the shorter length; a claim's own disclosure is included iff the claim
+// is selected; digests without a held disclosure contribute nothing; kind-inconsistent selectors contribute nothing.
+type Sel = Option<Seq<Seq<char>>>;
+spec fn app(a: Sel, b: Sel) -> Sel { match (a, b) { (Some(x), Some(y)) => Some(x + y), _ => None } }
+spec fn minn(a: nat, b: nat) -> nat { if a <= b { a } else { b } }
+spec fn j_arr_get(x: Seq<J>, i: int) -> Option<J> { if 0 <= i < x.len() { Some(x[i]) } else { None } }
+
+spec fn skip_sel(s: J) -> bool { s == J::Bool(false) || s == J::Null }
+spec fn sel_obj(p: Seq<(Seq<char>, J)>, dm: DM, sel: Seq<(Seq<char>, J)>, n: nat) -> Sel
+    decreases sel, n
+{
+    if n == 0 || n > sel.len() { Some(Seq::empty()) } else {
+        let prev = sel_obj(p, dm, sel, (n - 1) as nat);
+        let (k, s) = sel[n - 1];
+        if skip_sel(s) { prev } else { app(app(prev, member_children(p, dm, k, s)), member_own(p, dm, k)) }
+    }
+}
+// a selected member's own disclosure: none for a visible member, its digest for a hidden one, refusal for an unknown name
+spec fn member_own(p: Seq<(Seq<char>, J)>, dm: DM, k: Seq<char>) -> Sel {
+    let sdm = sdm_spec(p, dm);
+    if j_has(p, k) { Some(Seq::empty()) } else if sdm.contains_key(k) { Some(seq![sdm[k].1]) } else { None }
+}
+// what is selected beneath a selected member
+spec fn member_children(p: Seq<(Seq<char>, J)>, dm: DM, k: Seq<char>, s: J) -> Sel
+    decreases s, 0nat
+{
+    let sdm = sdm_spec(p, dm);
+    match s {
+        J::Arr(sa) => match j_get(p, k) {
+            Some(J::Arr(na)) => sel_arr(na, dm, sa, minn(sa.len(), na.len())),
+            _ => if sdm.contains_key(k) && sdm[k].0 is Arr { sel_arr(sdm[k].0->Arr_0, dm, sa, minn(sa.len(), sdm[k].0->Arr_0.len())) } else { Some(Seq::empty()) },
+        },
+        J::Obj(so) => if so.len() == 0 { Some(Seq::empty()) } else { match j_get(p, k) {
+            Some(J::Obj(no)) => sel_obj(no, dm, so, so.len()),
+            _ => if sdm.contains_key(k) && sdm[k].0 is Obj { sel_obj(sdm[k].0->Obj_0, dm, so, so.len()) } else { None },
+        } },
+        _ => Some(Seq::empty()),
+    }
+}
+spec fn sel_arr(na: Seq<J>, dm: DM, sa: Seq<J>, n: nat) -> Sel
+    decreases sa, n
+{
+    if n == 0 || n > sa.len() || n > na.len() { Some(Seq::empty()) } else {
+        app(app(sel_arr(na, dm, sa, (n - 1) as nat), elem_own(sa[n - 1], na[n - 1], dm)), elem_children(sa[n - 1], na[n - 1], dm))
+    }
+}
+// the digest held in a placeholder element {"...": d}
+spec fn placeholder_digest(e: J) -> Option<Seq<char>> {
+    match e { J::Obj(eo) => match j_get(eo, K_DOTS()) { Some(J::Str(d)) => Some(d), _ => None }, _ => None }
+}
+// an array element's own disclosure: included iff the element is selected (`true`, or a selector of the disclosed value's kind)
+spec fn elem_own(s: J, e: J, dm: DM) -> Sel {
+    match placeholder_digest(e) {
+        Some(d) => if !dm.contains_key(d) { Some(Seq::empty()) } else if s == J::Bool(true) { Some(seq![d]) } else { match dm[d] {
+            J::Arr(x) => match (s, j_arr_get(x, 1)) {
+                (J::Arr(_), Some(J::Arr(_))) => Some(seq![d]),
+                (J::Obj(_), Some(J::Obj(_))) => Some(seq![d]),
+                _ => Some(Seq::empty()),
+            },
+            _ => None,
+        } },
+        None => Some(Seq::empty()),
+    }
+}
+spec fn elem_children(s: J, e: J, dm: DM) -> Sel
+    decreases s, 0nat
+{
+    match placeholder_digest(e) {
+        Some(d) => if !dm.contains_key(d) || s == J::Bool(true) { Some(Seq::empty()) } else { match dm[d] {
+            J::Arr(x) => match (s, j_arr_get(x, 1)) {
+                (J::Arr(sa2), Some(J::Arr(na2))) => sel_arr(na2, dm, sa2, minn(sa2.len(), na2.len())),
+                (J::Obj(so2), Some(J::Obj(no2))) => sel_obj(no2, dm, so2, so2.len()),
+                _ => Some(Seq::empty()),
+            },
+            _ => Some(Seq::empty()),
+        } },
+        None => match (s, e) {
+            (J::Obj(so2), J::Obj(eo)) => sel_obj(eo, dm, so2, so2.len()),
+            (J::Arr(sa2), J::Arr(na2)) => sel_arr(na2, dm, sa2, minn(sa2.len(), na2.len())),
+            _ => Some(Seq::empty()),
+        },
+    }
+}
+spec fn raws(ds: Seq<Seq<char>>, hd: RawMap) -> Seq<Seq<char>> { ds.map_values(|d: Seq<char>| hd[d]@) }
+broadcast proof fn b_raws_add(a: Seq<Seq<char>>, b: Seq<Seq<char>>, hd: RawMap)
+    ensures #[trigger] raws(a + b, hd) == raws(a, hd) + raws(b, hd)
+{ assert(raws(a + b, hd) =~= raws(a, hd) + raws(b, hd)); }
+broadcast proof fn b_strs_add(a: Seq<String>, b: Seq<String>)
+    ensures #[trigger] strs(a + b) == strs(a) + strs(b)
+{ assert(strs(a + b) =~= strs(a) + strs(b)); }
+broadcast proof fn b_strs_push(a: Seq<String>, x: String)
+    ensures #[trigger] strs(a.push(x)) == strs(a) + seq![x@]
+{ assert(strs(a.push(x)) =~= strs(a) + seq![x@]); }
+broadcast proof fn b_raws_one(d: Seq<char>, hd: RawMap)
+    ensures #[trigger] raws(seq![d], hd) == seq![hd[d]@]
+{ assert(raws(seq![d], hd) =~= seq![hd[d]@]); }
+broadcast proof fn b_raws_empty(hd: RawMap)
+    ensures #[trigger] raws(Seq::<Seq<char>>::empty(), hd) == Seq::<Seq<char>>::empty()
+{ assert(raws(Seq::<Seq<char>>::empty(), hd) =~= Seq::<Seq<char>>::empty()); }
+broadcast proof fn b_add_empty_r(a: Seq<Seq<char>>)
+    ensures #[trigger] (a + Seq::<Seq<char>>::empty()) == a
+{ assert(a + Seq::<Seq<char>>::empty() =~= a); }
+broadcast proof fn b_add_empty_l(a: Seq<Seq<char>>)
+    ensures #[trigger] (Seq::<Seq<char>>::empty() + a) == a
+{ assert(Seq::<Seq<char>>::empty() + a =~= a); }
+broadcast proof fn b_add_assoc(a: Seq<Seq<char>>, b: Seq<Seq<char>>, c: Seq<Seq<char>>)
+    ensures #[trigger] ((a + b) + c) == a + (b + c)
+{ assert((a + b) + c =~= a + (b + c)); }
+broadcast group group_sel { b_raws_add, b_strs_add, b_strs_push, b_raws_one, b_raws_empty, b_add_empty_r }
